@@ -153,6 +153,11 @@ func c06AfterCrash(s *sim) (viol, class string) {
 		if f == nil {
 			return fmt.Sprintf("after recovery the partial listing names %s with unknown hash %s\n%s", name, p.Hash, tr()), ""
 		}
+		if deliveredBefore[f.target()+" "+f.hash()] {
+			// a repeated transmission of a version that is already delivered: whatever the record
+			// says, the copy is discarded as a duplicate when it completes
+			continue
+		}
 		tainted := false
 		for _, x := range s.steps {
 			if x.Act.Op == "recvbad" && x.Act.F == f.Key {
@@ -213,7 +218,7 @@ func c06AfterCrash(s *sim) (viol, class string) {
 			for i := 0; i < len(f.Cuts)-1; i++ {
 				sent := false
 				for _, x := range s.steps[:crash+1] {
-					if strings.HasPrefix(x.Act.Op, "recv") && x.Act.F == k && x.Act.P == i && x.Err == "" && !x.Crashed {
+					if strings.HasPrefix(x.Act.Op, "recv") && x.Act.F == k && x.Act.P == i && x.Err == "" && (!x.Crashed || x.Acked) {
 						sent = true
 					}
 				}
@@ -383,8 +388,8 @@ func TestC06Versions(t *testing.T) {
 func TestC06Held(t *testing.T) {
 	files := []*sFile{
 		{Key: "p1", Name: "p", Data: "PPPP", Cuts: []int64{0, 4}},
-		{Key: "b1", Name: "b", Prev: "p", Data: "CCCC", Cuts: []int64{0, 4}},
-		{Key: "b2", Name: "b", Prev: "p", Data: "ccccdd", Cuts: []int64{0, 4, 6}},
+		{Key: "b1", Name: "b", Prev: "p", Data: "CCCCDD", Cuts: []int64{0, 6}},
+		{Key: "b2", Name: "b", Prev: "p", Data: "ccccdd", Cuts: []int64{0, 4, 6}}, // same size as version 1
 	}
 	alphabet := func(hist []sAction) []sAction {
 		var out []sAction
@@ -407,7 +412,29 @@ func TestC06Held(t *testing.T) {
 		return out
 	}
 	runC06(t, "receiver crash points, a held version superseded by a new one (E-HIST)", files, alphabet, 5, false,
-		"crash-free histories up to length 5 over: file p (1 part), two versions of file b (1 and 2 parts, predecessor p; the second version after the first was transmitted), orderly restart, clock +11 s; every crash point of every transition, and of the recovery that follows for histories up to length 3")
+		"crash-free histories up to length 5 over: file p (1 part), two versions of file b (same size, 1 and 2 parts, predecessor p; the second version after the first was transmitted), orderly restart, clock +11 s; every crash point of every transition, and of the recovery that follows for histories up to length 3")
+}
+
+// TestC06Aged: a delivered file is transmitted again more than a day later (its delivery is then
+// known from the receive log only) and the receiver dies during that retransmission.
+func TestC06Aged(t *testing.T) {
+	files := []*sFile{{Key: "a1", Name: "a", Renamed: "x/a", Data: "AAAABBBB", Cuts: []int64{0, 4, 8}}}
+	alphabet := func(hist []sAction) []sAction {
+		var out []sAction
+		for p := 0; p < 2; p++ {
+			if histCount(hist, "recv", "a1", p) < 2 {
+				out = append(out, sAction{Op: "recv", F: "a1", P: p})
+			}
+		}
+		for _, op := range []string{"adv25h", "restart", "age"} {
+			if histCount(hist, op, "", 0) < 1 {
+				out = append(out, sAction{Op: op})
+			}
+		}
+		return out
+	}
+	runC06(t, "receiver crash points, retransmission of a file delivered more than a day ago (E-HIST)", files, alphabet, 6, false,
+		"crash-free histories up to length 6 over one renamed file in 2 parts, each part up to twice, clock +25 h, cache ageing, orderly restart; every crash point of every transition, and of the recovery that follows for histories up to length 3")
 }
 
 func TestC06(t *testing.T) {
